@@ -27,6 +27,10 @@ pub enum Cmd {
     Defer(u64, Vec<Cmd>),
 }
 
+/// process-wide counts of defer calls and of executed deferred functions (C15: nothing lost at quiescence)
+static DEFERRED: std::sync::atomic::AtomicUsize = std::sync::atomic::AtomicUsize::new(0);
+static EXECUTED: std::sync::atomic::AtomicUsize = std::sync::atomic::AtomicUsize::new(0);
+
 thread_local! {
     static CUR_HANDLE: Cell<*const LocalHandle> = const { Cell::new(std::ptr::null()) };
 }
@@ -55,8 +59,10 @@ fn exec(c: &Cmd, guards: &mut Vec<Guard>) {
             let id = *id;
             let body = body.clone();
             let g = guards.last().expect("defer without guard");
+            DEFERRED.fetch_add(1, std::sync::atomic::Ordering::SeqCst);
             unsafe {
                 ebr::defer(g, move || {
+                    EXECUTED.fetch_add(1, std::sync::atomic::Ordering::SeqCst);
                     sched::obs(2010, id as usize, 0);
                     if CUR_HANDLE.with(|c| c.get()).is_null() {
                         // run after the case ended (tear-down on the main thread): not part of the model
@@ -183,6 +189,8 @@ pub enum Sched {
 
 pub fn run_case(cap: usize, g0: usize, progs: &[Vec<Cmd>], rng: &mut Rng, sch: Sched) -> (String, Vec<String>) {
     ebr::set_tuning(cap, 64);
+    DEFERRED.store(0, std::sync::atomic::Ordering::SeqCst);
+    EXECUTED.store(0, std::sync::atomic::Ordering::SeqCst);
     let collector = Collector::new();
     // the main thread's participant: registered first, unpinned during the case; brings the epoch to g0
     let h0 = collector.register();
@@ -324,7 +332,21 @@ pub fn run_case(cap: usize, g0: usize, progs: &[Vec<Cmd>], rng: &mut Rng, sch: S
         monitor.push("PROPFAIL C13 a model thread panicked".to_string());
     }
     monitor.extend(monitors(nt, &sched_of(&res.trace), &steps));
+    // C15 at quiescence: the threads' participants are released (their bags are handed over), then the
+    // surviving participant runs rounds; every deferred function must have run exactly once by then
     drop(handles);
+    let sealed_bound = 12 + DEFERRED.load(std::sync::atomic::Ordering::SeqCst) / 1;
+    let mut rounds = 0;
+    while EXECUTED.load(std::sync::atomic::Ordering::SeqCst) < DEFERRED.load(std::sync::atomic::Ordering::SeqCst) && rounds < sealed_bound {
+        let g = h0.pin();
+        g.flush();
+        drop(g);
+        rounds += 1;
+    }
+    let (d, e) = (DEFERRED.load(std::sync::atomic::Ordering::SeqCst), EXECUTED.load(std::sync::atomic::Ordering::SeqCst));
+    if d != e {
+        monitor.push(format!("PROPFAIL C15 at quiescence: {} deferred functions, {} executed after {} rounds of the surviving participant", d, e, rounds));
+    }
     drop(h0);
     (case_line("ebr", &encode(cap, g0, progs), &sched_of(&res.trace), &steps), monitor)
 }
@@ -352,6 +374,8 @@ fn monitors(nt: usize, sched: &[usize], steps: &[Vec<(u32, i64, i64)>]) -> Vec<S
     let mut ndepth = vec![0i64; nt];
     let mut nserial = vec![0u64; nt];
     let mut nwit: HashMap<i64, Vec<(usize, u64)>> = HashMap::new();
+    let mut ran_ids: std::collections::HashSet<i64> = std::collections::HashSet::new();
+    let mut deferred_ids: std::collections::HashSet<i64> = std::collections::HashSet::new();
     let see_g = |g: i64, g_seen: &mut i64, in_cs: &Vec<bool>, ann: &Vec<i64>, out: &mut Vec<String>, k: usize| {
         if *g_seen >= 0 && (g < *g_seen || g > *g_seen + 1) {
             out.push(format!("PROPFAIL C14 step {}: global epoch observed {} after {}", k, g, *g_seen));
@@ -375,6 +399,9 @@ fn monitors(nt: usize, sched: &[usize], steps: &[Vec<(u32, i64, i64)>]) -> Vec<S
                 1 => {
                     cur_op[t] = (a, _b);
                     in_closure[t] = 0;
+                    if a == 3 {
+                        deferred_ids.insert(_b);
+                    }
                     // unpin / reactivate of the only guard: the critical section ends here
                     if (a == 1 || a == 4) && depth[t] == 1 {
                         in_cs[t] = false;
@@ -389,6 +416,12 @@ fn monitors(nt: usize, sched: &[usize], steps: &[Vec<(u32, i64, i64)>]) -> Vec<S
                 20 => see_g(a / 2, &mut g_seen, &in_cs, &ann, &mut out, k),
                 2010 => {
                     in_closure[t] += 1;
+                    if !ran_ids.insert(a) {
+                        out.push(format!("PROPFAIL C15 step {}: deferred function {} runs a second time (on thread {})", k, a, t));
+                    }
+                    if !deferred_ids.contains(&a) {
+                        out.push(format!("PROPFAIL C15 step {}: a deferred function with id {} runs but was never deferred", k, a));
+                    }
                     if let Some(ws) = nwit.get(&a) {
                         for &(q, n) in ws {
                             if ndepth[q] > 0 && nserial[q] == n {
@@ -417,6 +450,9 @@ fn monitors(nt: usize, sched: &[usize], steps: &[Vec<(u32, i64, i64)>]) -> Vec<S
                         wit.insert(_b, ws);
                         let nws: Vec<(usize, u64)> = (0..nt).filter(|&q| ndepth[q] > 0).map(|q| (q, nserial[q])).collect();
                         nwit.insert(_b, nws);
+                    }
+                    if a == 3 {
+                        deferred_ids.insert(_b);
                     }
                     // guards of the body: pin / unpin
                     if a == 0 {
